@@ -24,7 +24,7 @@ ASSUMPTIONS = [
 ]
 MONITORS = ("status answers vs os.walk listing; FaultyFS counters prove both lookup strategies ran; wrappers on ObjectDBIndex.update/clear "
             "log what was indexed; index content vs upload log + present directory objects after every step")
-REQUIRED_COUNTERS = ["two_handle_histories", "status_queries", "strategy/per-object-exists", "strategy/traverse", "compare_status_calls", "expanded_queries",
+REQUIRED_COUNTERS = ["unprotected_valid_objects", "two_handle_histories", "status_queries", "strategy/per-object-exists", "strategy/traverse", "compare_status_calls", "expanded_queries",
                      "histories", "history_steps", "index_checks", "index_updates_seen", "index_clears_seen", "external_deletions",
                      "failed_transfer_steps", "indexed_dir_exists_checked", "store/local", "store/remote", "store/base"]
 
@@ -38,12 +38,12 @@ def run_shard(ctx):
 
     res = ctx.res
 
-    def put(root, oid, data):
+    def put(root, oid, data, mode=0o444):
         p = os.path.join(root, oid[:2], oid[2:])
         os.makedirs(os.path.dirname(p), exist_ok=True)
         with open(p, "wb") as f:
             f.write(data)
-        os.chmod(p, 0o444)
+        os.chmod(p, mode)
 
     def mk_store(rng, root, cls):
         if cls == "remote":
@@ -72,9 +72,15 @@ def run_shard(ctx):
             raw = canonical_dir_bytes(listing)
             dirs[H("md5", raw) + DIR_SUFFIX] = (listing, raw)
         present = set()
+        if rng.random() < 0.4:
+            blobs[H("md5", b"")] = b""  # the empty file's object is an object like any other
         for o, b in blobs.items():
             if rng.random() < 0.6:
-                put(root, o, b)
+                # valid objects that are not write-protected (written by another tool, or protect failed on that filesystem)
+                unprot = rng.random() < 0.3
+                put(root, o, b, 0o644 if unprot else 0o444)
+                if unprot:
+                    res.count("unprotected_valid_objects")
                 present.add(o)
         for o, (_l, raw) in dirs.items():
             put(croot, o, raw)
@@ -110,6 +116,7 @@ def run_shard(ctx):
             before = dict(ffs.counters) if ffs else {}
             res.evaluated()
             res.count("status_queries")
+            held_before = set(list_store(root)[0])
             st = status(odb, ids, cache_odb=cache, shallow=not expanded, jobs=jobs)
             if ffs:
                 after = ffs.counters
@@ -119,6 +126,10 @@ def run_shard(ctx):
                     res.count("strategy/traverse")
             objs, _t, _s = list_store(root)
             now = set(objs)
+            if now != held_before:
+                res.violation(f"status-query-changed-the-store/{cls}", f"a status query removed valid object(s) {sorted(held_before - now)[:2]}", case=case,
+                              detail={"store": cls, "queried": len(q)})
+            now = held_before  # the answer is judged against the contents at query time
             E = {h.value for h in st.exists}
             M = {h.value for h in st.missing}
             cfg = {"store": cls, "queried": len(q), "expanded": expanded, "jobs": jobs, "present": len(now),
